@@ -39,7 +39,16 @@ class Leaf(nn.Module):
 
 
 class Root(nn.Module):
+    def __init__(self, name=None, own=False):
+        super().__init__(name)
+        # a parameter of the root itself, with the same attribute name as the leaves' (realised before theirs)
+        if own:
+            self.weight = nn.Parameter([2], name="weight")
+        self._own = own
+
     def forward(self, op, x):
+        if self._own:
+            x = op.Mul(x, self.weight)
         for _, child in self.named_children():
             x = run(child, op, x)
         return x
@@ -55,9 +64,15 @@ def run(m, op, x):
     return m(op, x)
 
 
-def history(steps, named_first: bool):
-    """Execute one concrete construction history; returns (ok, detail)."""
-    root = Root("model" if named_first else None)
+ROOT_MODES = ["named_at_construction", "named_at_the_end", "unnamed"]
+
+
+def history(steps, named_first, root_own: bool = False):
+    """Execute one concrete construction history; returns (ok, detail).  named_first: bool (legacy) or index into ROOT_MODES."""
+    mode = ROOT_MODES[(0 if named_first else 1) if isinstance(named_first, bool) else named_first]
+    named_first = mode == "named_at_construction"
+    prefix = "" if mode == "unnamed" else "model."
+    root = Root("model" if named_first else None, root_own)
     detached: list = []
     attached: list = []
     n_attr = 0
@@ -107,7 +122,7 @@ def history(steps, named_first: bool):
         c = detached.pop()
         setattr(root, f"s{n_attr}", c)
         n_attr += 1
-    if not named_first:
+    if mode == "named_at_the_end":
         root._set_name("model")  # pylint: disable=protected-access
     g = ir.Graph(name="g", inputs=[], outputs=[], nodes=[], opset_imports={"": 18})
     x = ir.Value(name="x", type=ir.TensorType(DT.FLOAT), shape=ir.Shape([2]))
@@ -123,7 +138,7 @@ def history(steps, named_first: bool):
         return None, "skip (no parameters used)"
     g.outputs.append(y)
     sd = root.state_dict()
-    want = sorted("model." + k for k in sd)
+    want = sorted(prefix + k for k in sd)
     got = sorted(n for n in g.initializers if not n.startswith("const_"))
     params = list(root.parameters())
     if len(params) != len(sd):
@@ -132,9 +147,9 @@ def history(steps, named_first: bool):
         return False, f"initializer names {got} != root.name + state_dict keys {want}"
     by_name = dict(root.named_parameters())
     for k, p in by_name.items():
-        v = g.initializers.get("model." + k)
+        v = g.initializers.get(prefix + k)
         if v is not p:
-            return False, f"initializer model.{k} is not the Parameter object"
+            return False, f"initializer {prefix}{k} is not the Parameter object"
     names = [o.name for nd in g for o in nd.outputs] + list(g.initializers) + ["x"]
     if len(set(names)) != len(names):
         return False, "duplicate value names"
@@ -161,34 +176,35 @@ def _pick(v, lo, hi):
     raise AssertionError("out of the stated range")
 
 
-def names_prop(steps: List[int], named_first: bool) -> bool:
+def names_prop(steps: List[int], root_mode: int, root_own: bool) -> bool:
     st = [_pick(s, 0, NOPS - 1) for s in steps]
-    nf = True if named_first else False
+    rm = _pick(root_mode, 0, len(ROOT_MODES) - 1)
+    ro = True if root_own else False
     from crosshair.tracers import NoTracing
     with NoTracing():
-        ok, _ = history(st, nf)
+        ok, _ = history(st, rm, ro)
     return ok is not False
 
 
-def explain(steps, named_first):
-    return history(list(steps), named_first)
+def explain(steps, root_mode, root_own=False):
+    return history(list(steps), root_mode, root_own)
 
 
 def _ob(n, fixed=()):
-    pres = [f"len(steps) == {n}", f"all(0 <= s < {NOPS} for s in steps)"] + [f"steps[{i}] == {k}" for i, k in enumerate(fixed)]
+    pres = [f"len(steps) == {n}", f"all(0 <= s < {NOPS} for s in steps)", f"0 <= root_mode < {len(ROOT_MODES)}"] + [f"steps[{i}] == {k}" for i, k in enumerate(fixed)]
     return {
         "id": f"c18.names.n{n}" + "".join(f".{OPS[k]}" for k in fixed),
-        "sig": "steps: List[int], named_first: bool",
+        "sig": "steps: List[int], root_mode: int, root_own: bool",
         "pres": pres,
-        "call": "H.names_prop(steps, named_first)",
+        "call": "H.names_prop(steps, root_mode, root_own)",
         "timeout": 300, "timeout_thorough": 1200,
         "tiers": ("quick", "thorough") if n <= 4 else ("thorough",),
         "functions": ["onnxscript.nn._module_list:ModuleList._register_child", "onnxscript.nn._module_list:ModuleList._set_name",
                       "onnxscript.nn._sequential:Sequential._register_child", "onnxscript.nn._sequential:Sequential._set_name",
                       "onnxscript.nn._module:Module.__setattr__", "onnxscript.nn._module:Module.__call__",
                       "onnxscript.nn._parameter:Parameter._realize"],
-        "bounds": f"construction histories of {n} steps over {NOPS} step kinds {OPS} (symbolic), root named at construction or at the end "
-                  "(symbolic); leaves have 1-2 parameters; histories whose step is not applicable are skipped",
+        "bounds": f"construction histories of {n} steps over {NOPS} step kinds {OPS} (symbolic), root named at construction / at the end / not at all "
+                  "and owning a parameter called like the leaves' or not (symbolic); leaves have 1-2 parameters; histories whose step is not applicable are skipped",
         "stubs": [],
     }
 
